@@ -53,16 +53,25 @@ func putSA(msg proto.Message, p gen.Path, keys []string) {
 }
 
 func checkSA(tr interceptor.Translator, r root, msg proto.Message, keysReq map[string]string, kind string) []rec.Violation {
-	mapping := saReq["nsid"]
+	return checkSAMaps(tr, r, msg, saReq["nsid"], saResp["nsid"], kind)
+}
+
+// one-to-one mappings whose local and remote key sets overlap: a chain and a swap
+var (
+	saChainReq  = map[string]map[string]string{"nsid": {"ChainA": "ChainB", "ChainB": "ChainC", "SwapX": "SwapY", "SwapY": "SwapX"}}
+	saChainResp = map[string]map[string]string{"nsid": {"ChainB": "ChainA", "ChainC": "ChainB", "SwapY": "SwapX", "SwapX": "SwapY"}}
+)
+
+func checkSAMaps(tr interceptor.Translator, r root, msg proto.Message, mapReq, mapResp map[string]string, kind string) []rec.Violation {
+	mapping := mapReq
 	real := proto.Clone(msg)
 	var err error
 	if r.isResp {
-		mapping = saResp["nsid"]
+		mapping = mapResp
 		_, err = tr.TranslateResponse(real)
 	} else {
 		_, err = tr.TranslateRequest(real)
 	}
-	_ = keysReq
 	want := proto.Clone(msg)
 	gen.TranslateSearchAttributes(want, mapping)
 	if err != nil && (r.md.Name() == "AddSearchAttributesRequest" || r.md.Name() == "RemoveSearchAttributesRequest") {
@@ -87,6 +96,7 @@ func TestSA(t *testing.T) {
 	out := rec.Default()
 	probe := fakes.NewProbe(1)
 	tr := interceptor.NewSearchAttributeTranslator(probe, saReq, saResp)
+	trChain := interceptor.NewSearchAttributeTranslator(probe, saChainReq, saChainResp)
 	roots := allRoots()
 	hd := (&historypb.HistoryEvent{}).ProtoReflect().Descriptor()
 	evSA := gen.EnumeratePaths(hd, isSAContainer, 2, 10, 100000)
@@ -116,6 +126,15 @@ func TestSA(t *testing.T) {
 				counts["sa_path_cases"]++
 				classes = append(classes, r.String()+":"+p.String())
 				viol = append(viol, checkSA(tr, r, msg, nil, "path "+p.String())...)
+				// overlapping one-to-one mapping (chain a->b, b->c and swap x<->y), all affected keys in one container
+				cm := gen.New(r.md)
+				ck := []string{"ChainA", "ChainB", "SwapX", "SwapY", "Unmapped1"}
+				if r.isResp {
+					ck = []string{"ChainB", "ChainC", "SwapX", "SwapY", "Unmapped1"}
+				}
+				putSA(cm, p, ck)
+				counts["sa_chain_swap_cases"]++
+				viol = append(viol, checkSAMaps(trChain, r, cm, saChainReq["nsid"], saChainResp["nsid"], "chain/swap mapping, path "+p.String())...)
 			}
 			for _, bp := range blobPaths {
 				for ei, ep := range evSA {
@@ -136,6 +155,24 @@ func TestSA(t *testing.T) {
 					counts["sa_blob_cases"]++
 					classes = append(classes, r.String()+":"+bp.String()+"<"+ep.String()+">")
 					viol = append(viol, checkSA(tr, r, msg, nil, "blob "+bp.String()+" event "+ep.String())...)
+					if ei%2 == 0 { // the same with the overlapping mapping, keys inside the serialized event
+						cev := &historypb.HistoryEvent{EventId: 3}
+						ck := []string{"ChainA", "ChainB", "SwapX", "SwapY", "Unmapped1"}
+						if r.isResp {
+							ck = []string{"ChainB", "ChainC", "SwapX", "SwapY", "Unmapped1"}
+						}
+						putSA(cev, ep, ck)
+						cmsg := gen.New(r.md)
+						cparent, cf := gen.Descend(cmsg, bp)
+						cblob := gen.EncodeEvents([]*historypb.HistoryEvent{cev})
+						if cf.IsList() {
+							cparent.Mutable(cf).List().Append(protoreflect.ValueOfMessage(cblob.ProtoReflect()))
+						} else {
+							cparent.Set(cf, protoreflect.ValueOfMessage(cblob.ProtoReflect()))
+						}
+						counts["sa_chain_swap_cases"]++
+						viol = append(viol, checkSAMaps(trChain, r, cmsg, saChainReq["nsid"], saChainResp["nsid"], "chain/swap mapping, blob "+bp.String()+" event "+ep.String())...)
+					}
 				}
 			}
 		} else {
